@@ -15,6 +15,7 @@ def run(run, model):
     run.do(rec.lazy_ifexp, model, "C07.lazy")
     run.do(rec.supported_forms, model)
     run.do(rec.dispatch_closed, model)
+    run.do(rec.truth_protocol, model)
     run.do(c09.dispatch_table, model, "C07.default-error")
     run.do(msg.text_and_assembly, model)
     run.do(msg.decorator_regex, model)
@@ -31,3 +32,4 @@ def run(run, model):
     run.minimum("C07.no-swallow", 3)
     run.minimum("C07.all-trace", 2)
     run.minimum("C07.dispatch-closed", 2)
+    run.minimum("C07.truth-protocol", 1)
